@@ -334,7 +334,10 @@ def uniq_post(chk, d):
     vlib.absorb(chk, r)
     ctr = r.get("counters") or {}
     # vacuity: every non-empty subset of the indexed columns was changed by UPDATE and by UPSERT, towards a colliding and a free tuple
+    setup_failed = {x["origin"].split()[1] for x in devs if x["class"] == "catalog-mismatch"}
     for idx in d["idx"]:
+        if idx in setup_failed:
+            continue
         cols = list(idx)
         for mask in range(1, 1 << len(cols)):
             sel = [cols[i] for i in range(len(cols)) if mask >> i & 1]
@@ -489,7 +492,7 @@ def profile(pid, tier):
     if pid == "C12":
         design = [
             # constraint checks under every interleaving of two transactions / autocommit statements
-            ("2 tx sessions x 3", consts(NS=2, MaxStmts=3, VVals={"p"}, ExplIds={1}, Kinds={"begin", "commit", "insA", "del", "ups", "updU"}), 3),
+            ("2 tx sessions x 3", consts(NS=2, MaxStmts=3, VVals={"p"}, ExplIds={1}, Kinds={"begin", "commit", "insA", "del", "updU"} | ({"ups"} if thorough else set())), 3),
             ("ddl: create unique index on a populated table", consts(NS=2, MaxStmts=3, VVals={"p"}, ExplIds={1}, TxSessions={1}, InitUIdx=False,
                                                                  Kinds={"begin", "commit", "insA", "del", "crIdx"}), 2),
         ]
@@ -512,8 +515,8 @@ def profile(pid, tier):
         uniq = ([("ab", UNIQ_HIST_ALL), ("ba", UNIQ_HIST_ALL), ("abd", UNIQ_HIST_ALL), ("dab", UNIQ_HIST_ALL), ("bda", UNIQ_HIST_ALL)] if thorough else
                 [("ba", UNIQ_HIST_ALL), ("dab", {"plain", "other-updated", "after-delete", "other-in-tx", "null"})])
         # catalog visibility across sessions
-        cat = {"design": [("2 sessions x 4: begin/commit/rollback, insert, create unique index, add column, catalog query",
-                           cat_consts(NS=2, MaxStmts=4, Kinds={"begin", "commit", "rollback", "ins", "crUIdx", "addCol", "showcat"}), 3)] +
+        cat = {"design": [("2 sessions x %d: begin/commit/rollback, insert, create unique index, add column, catalog query" % (4 if thorough else 3),
+                           cat_consts(NS=2, MaxStmts=4 if thorough else 3, Kinds={"begin", "commit", "rollback", "ins", "crUIdx", "addCol", "showcat"}), 3)] +
                          ([("3 sessions x 3, all DDL kinds", cat_consts(NS=3, MaxStmts=3, MaxId=2), 8),
                            ("2 sessions x 5", cat_consts(NS=2, MaxStmts=5, Kinds={"begin", "commit", "ins", "crUIdx", "crWIdx", "showcat", "sel"}), 8)] if thorough else []),
                # quick replays the two recorded scenarios (CAT_SCRIPTS); thorough lets TLC search them on the broken model again
@@ -650,10 +653,10 @@ def run_sqltx(chk, args):
         chk.cov["pgwire"] = {"behaviours": nb, "steps": r.get("evaluations", 0), "deviations": len(devs)}
         vlib.log("[pgwire] %d behaviours %.1fs, %d deviations" % (nb, time.time() - t0, len(devs)))
     # 5b. C12: composite unique indexes (directed enumeration) and catalog visibility across the sessions of one engine
-    if ju:
-        uniq_post(chk, ju.result())
     if jc:
         cat_post(chk, jc.result())
+    if ju:
+        uniq_post(chk, ju.result())
     hx.shutdown()
     return binp, wd
 
